@@ -110,18 +110,25 @@ func (m *Migrator) Migrate(
 	pivot := min(l1Head.BlockNumber, chainHeight)
 
 	if !m.floorPinned {
-		if pivot < m.retainedBlocks {
-			// Chain shorter than the retention window — nothing to prune yet.
-			return nil, nil
+		// A run that died after committing its prune (and the wipe of the reverse lookups that
+		// goes with it) leaves no pinned cutoff behind: whatever the configuration says now,
+		// the work must be finished, and never below what is already pruned.
+		pruned, err := pruner.OldestRetainedBlock(database)
+		if err != nil && !errors.Is(err, db.ErrKeyNotFound) {
+			return nil, fmt.Errorf("finding oldest retained block: %w", err)
 		}
-		floor, err := m.retentionFloorWithMinAge(database, pivot)
-		if err != nil {
-			return nil, fmt.Errorf("computing oldest block kept: %w", err)
+		var floor uint64
+		if pivot >= m.retainedBlocks {
+			floor, err = m.retentionFloorWithMinAge(database, pivot)
+			if err != nil {
+				return nil, fmt.Errorf("computing oldest block kept: %w", err)
+			}
 		}
+		floor = max(floor, pruned)
 		if floor == 0 {
-			// Everything from genesis up is retained (retainedBlocks == pivot, or every block is
-			// younger than minAge): nothing to prune, and no block below the cutoff whose
-			// hash→number mapping setupBeforeRestorer could seed.
+			// Everything from genesis up is retained (chain shorter than the retention window,
+			// retainedBlocks == pivot, or every block is younger than minAge): nothing to prune,
+			// and no block below the cutoff whose hash→number mapping setupBeforeRestorer could seed.
 			return nil, nil
 		}
 		m.oldestBlockKept = floor
